@@ -36,7 +36,7 @@ def r1(ctx):
     ctx.check(b.loop_range(lr) == Range(0, N), fi, "row r runs over range(N)", line=lr.lineno, role="classes:r", expected=str(Range(0, N)), found=str(b.loop_range(lr)))
     rc = b.loop_range(lc)
     want_lo = PW([(tm.compare("==", bv, 0), rv), (tm.compare("!=", bv, 0), tm.ZERO)])
-    ok = rc is not None and rc.hi == N and rc.step == tm.ONE and rc.lo == want_lo
+    ok = rc is not None and rc.hi == N and rc.step == tm.ONE and tm.pw_equiv(rc.lo, want_lo, bv, lo=0)
     ctx.check(ok, fi, "column c runs over [r, N) in the symmetric diagonal block b = 0 and over [0, N) otherwise (upper triangle, L-TOEP)",
               line=lc.lineno, role="classes:c", expected=f"range({want_lo}, {N})", found=str(rc))
     bad = [n for n in ast.walk(lb) if isinstance(n, (ast.Break, ast.Continue, ast.Return))]
@@ -387,6 +387,19 @@ def r11(ctx):
             continue
         a, S = theta.args
         ctx.check(S == Sym(fi.params[0]), fi, "the solver receives the caller's covariance unchanged", role="entry:covariance", expected=fi.params[0], found=str(S)[:80])
+        if isinstance(a, App) and a.fn in ana.prog.functions and not a.args:
+            # a pure forwarder `def pack(**settings): return ADMMArguments(**settings)` builds the bundle from the same keywords
+            g_ = ana.prog.functions[a.fn]
+            body_ = [st for st in g_.node.body if not (isinstance(st, ast.Expr) and isinstance(st.value, ast.Constant))]
+            ga = g_.node.args
+            if len(body_) == 1 and isinstance(body_[0], ast.Return) and isinstance(body_[0].value, ast.Call) and ga.kwarg is not None \
+                    and not (ga.args or ga.posonlyargs or ga.kwonlyargs or ga.vararg):
+                c_ = body_[0].value
+                r_ = ana.res.callee(g_, c_)
+                if getattr(r_, "cls", None) is not None and r_.cls.qualname.endswith("arguments.ADMMArguments") and not c_.args \
+                        and len(c_.keywords) == 1 and c_.keywords[0].arg is None and isinstance(c_.keywords[0].value, ast.Name) \
+                        and c_.keywords[0].value.id == ga.kwarg.arg:
+                    a = App(r_.cls.qualname, (), dict(a.kw))
         okc = isinstance(a, App) and a.fn.endswith("arguments.ADMMArguments")
         if not ctx.check(okc, fi, "the solver's argument bundle is an ADMMArguments built here", role="entry:bundle", found=str(a)[:100]):
             continue
